@@ -94,7 +94,7 @@ def _gen(rng, entry):
         c["attrs"] = {"note": "n%d" % rng.randint(0, 99)}
         if rng.random() < 0.4:
             c["attrs"]["version"] = rng.randint(1, 5)
-    c["shuffle"] = rng.choice([False, False, True, rng.randint(2, 9999)])
+    c["shuffle"] = gens.gen_shuffle(rng)
     c["exec"] = rng.choice(["none", "none", "none", "fake_submit", "fake_apply", "threadpool"])
     c["perm_seed"] = rng.randint(0, 10 ** 9)
     return c
@@ -218,7 +218,7 @@ def run_case(ctx, case):
     fn = probe.Probe(kind, loglist=loglist, name="labelled_probe")
 
     opts = {"verbosity": 0}
-    if case["shuffle"]:
+    if case["shuffle"] is not False:
         opts["shuffle"] = case["shuffle"]
     pool = None
     if case["exec"] == "fake_submit":
